@@ -23,6 +23,7 @@ inductive Op where
   | clear (constants : Bool)
   | constant (name : Sel) (nameValid : Bool) (v : Val)
   | interactive (on : Bool)
+  | macroLookup (name : String)
   | singleton (key : String) (hasCtor : Bool)
   | observe (what : String)
   | enter (cur : Scope) (arg : ScopeArg)
@@ -84,7 +85,9 @@ mutual
         | some σ =>
           match callCfg defaultFuel st sel σ args kwargs with
           | .ok (st', v) => (st', .value v)
-          | .error e => (st, .err e)
+          | .error (e, se) =>
+            -- a failing call keeps what already happened: probes that ran, the operative record
+            ({ st with calls := se.calls, log := se.log, operative := se.operative }, .err e)
     | .getb sel σ inherit =>
         (st, .kvs (if inherit then getBindings st.config sel σ else getBindingsStrict st.config sel σ))
     | .addHook h => ({ st with hooks := st.hooks ++ [h] }, .ok)
@@ -94,6 +97,8 @@ mutual
     | .constant name valid v => match st.defConstant name valid v with
         | .ok st' => (st', .ok) | .error e => (st, .err e)
     | .interactive on => ({ st with interactive := on }, .ok)
+    | .macroLookup name => match st.resolveMacro name with
+        | .ok v => (st, .value v) | .error e => (st, .err e)
     | .singleton key hasCtor => match st.singletonUse key hasCtor with
         | .ok (st', v) => (st', .value v) | .error e => (st, .err e)
     | .observe what =>
